@@ -53,8 +53,10 @@ type V struct {
 	CanonicalNet   bool // only 4/16-byte IPs, 6-byte MACs, canonical prefixes (C08 domain)
 	TimeUnixNano   bool // times within the UnixNano range (UNIX* formats)
 	Time1970to2100 bool
-	MaxStr         int  // cap for random long strings
-	Big            bool // allow > 500 B / > 64 KiB payloads
+	MaxStr         int      // cap for random long strings
+	Big            bool     // allow > 500 B / > 64 KiB payloads
+	SafeKeys       bool     // keys from [A-Za-z0-9_.-]* (incl. the empty key) plus two multi-byte letters
+	AvoidKeys      []string // keys never generated (SafeKeys mode)
 }
 
 func (v *V) String() string {
@@ -131,6 +133,32 @@ func (v *V) Bytes() []byte {
 // Key: mostly short, sometimes hostile.
 func (v *V) Key() string {
 	r := v.R
+	if v.SafeKeys {
+		for {
+			n := r.Intn(7)
+			if r.Chance(1, 25) {
+				n = 0
+			}
+			var sb strings.Builder
+			for i := 0; i < n; i++ {
+				if r.Chance(1, 20) {
+					sb.WriteString([]string{"\u00e9", "\u4e16"}[r.Intn(2)])
+				} else {
+					sb.WriteByte("abcdefghijklmnopqrstuvwxyzABCXYZ0123456789_.-"[r.Intn(45)])
+				}
+			}
+			k := sb.String()
+			bad := false
+			for _, a := range v.AvoidKeys {
+				if a == k {
+					bad = true
+				}
+			}
+			if !bad {
+				return k
+			}
+		}
+	}
 	if r.Chance(3, 4) {
 		n := 1 + r.Intn(6)
 		b := make([]byte, n)
